@@ -235,10 +235,16 @@ def cli_path(ctx, rnd):
     raw = minify.keep_file_bytes(keep, rnd)
     kf = os.path.join(d, 'keep.txt')
     open(kf, 'wb').write(raw)
+    from pico8.game import file as gfile
+    from .. import cartio
+    ppng = os.path.join(d, 'inpng.p8.png')
+    gfile.to_file(gfile.from_file(p), ppng)
     runs = []
     for opt, kw in ((['--keep-names-from-file', kf], {'keep_file': raw}), (['--keep-all-names'], {'keep_all': True})):
         runs.append((['--quiet', 'luamin'] + opt + [p], os.path.join(d, 'in_fmt.p8'), kw, 'luamin ' + opt[0]))
+        runs.append((['--quiet', 'luamin'] + opt + [ppng], os.path.join(d, 'inpng_fmt.p8.png'), kw, 'luamin ' + opt[0] + ' (.p8.png)'))
         runs.append((['--quiet', 'build', os.path.join(d, 'b.p8'), '--lua', p, '--lua-minify'] + opt, os.path.join(d, 'b.p8'), kw, 'build --lua-minify ' + opt[0]))
+        runs.append((['--quiet', 'build', os.path.join(d, 'b.p8.png'), '--lua', p, '--lua-minify'] + opt, os.path.join(d, 'b.p8.png'), kw, 'build --lua-minify ' + opt[0] + ' (.p8.png)'))
     traces, meta = [], []
     for argv, outp, kw, what in runs:
         if os.path.exists(outp):
@@ -252,10 +258,8 @@ def cli_path(ctx, rnd):
         if rc not in (0, None) or not os.path.exists(outp):
             ctx.violation('cli-fails/' + what.replace(' ', '_'), 'p8tool %s failed on the every-node fixture (rc=%s)' % (what, rc), {'kind': 'cli', 'what': what})
             continue
-        data = open(outp, 'rb').read()
-        a = data.index(b'__lua__\n') + 8
-        b = data.index(b'\n__gfx__') + 1 if b'\n__gfx__' in data else len(data)
-        traces.append(minify.make_trace(src, data[a:b], 'C02', [], keep_all=kw.get('keep_all', False), keep_file=kw.get('keep_file', b'')))
+        out = cartio.game_code(gfile.from_file(outp))
+        traces.append(minify.make_trace(src, out, 'C02', [], keep_all=kw.get('keep_all', False), keep_file=kw.get('keep_file', b'')))
         meta.append(what)
     if traces:
         v = ctx.validate('TraceMinify', traces)
